@@ -15,7 +15,7 @@ import (
 	"verif/harness/internal/stats"
 )
 
-const ruleBusy = "rapid: a Send that is in flight (its first node blocks until the harness releases it, context never cancelled), 0-2 goroutines issuing writing Broker calls (RegisterNode, SetSuccessThreshold) queued beside it, then a second Send whose context is cancelled before the call / 1ms after / by a 5ms timeout, and optionally a node whose Process itself issues a writing Broker call (RegisterNode) before passing the event on; oracle = the second Send returns within 3 s of its cancellation while the first is still in flight (a miss counts only if the goroutine dump shows it blocked inside the library), and once the nodes are released every call returns; non-trivial = >=1 queued writer; distinct = configuration"
+const ruleBusy = "rapid: a Send that is in flight (its first node blocks until the harness releases it, context never cancelled), 0-2 goroutines issuing writing Broker calls (RegisterNode, SetSuccessThreshold, RegisterPipeline / RemovePipeline for the type whose Send is in flight) queued beside it, then a second Send whose context is cancelled before the call / 1ms after / by a 5ms timeout, and optionally a node whose Process itself issues a writing Broker call (RegisterNode) before passing the event on; oracle = the second Send returns within 3 s of its cancellation while the first is still in flight (a miss counts only if the goroutine dump shows it blocked inside the library), and once the nodes are released every call returns; non-trivial = >=1 queued writer; distinct = configuration"
 
 func TestC03BusyBroker(t *testing.T) {
 	sec := stats.Sec("busy_broker", ruleBusy)
@@ -25,7 +25,8 @@ func TestC03BusyBroker(t *testing.T) {
 		settleUs := rapid.SampledFrom([]int{0, 200, 2000}).Draw(t, "settleMicros")
 		reentrantWriter := rapid.IntRange(0, 3).Draw(t, "reentrantWriter") == 0
 		sameType := rapid.Bool().Draw(t, "secondSendSameType")
-		d := fmt.Sprintf("queuedWriters=%d cancel=%s settle=%dus reentrantWriterNode=%v secondSendSameType=%v", writers, cancelMode, settleUs, reentrantWriter, sameType)
+		writerKind := rapid.IntRange(0, 3).Draw(t, "writerKind")
+		d := fmt.Sprintf("queuedWriters=%d cancel=%s settle=%dus reentrantWriterNode=%v secondSendSameType=%v writerKind=%d", writers, cancelMode, settleUs, reentrantWriter, sameType, writerKind)
 		b, _ := eventlogger.NewBroker()
 		f, m, s := simul.New("f", eventlogger.NodeTypeFilter), simul.New("m", eventlogger.NodeTypeFormatter), simul.New("s", eventlogger.NodeTypeSink)
 		f.Block = make(chan struct{})
@@ -65,10 +66,16 @@ func TestC03BusyBroker(t *testing.T) {
 			wg.Add(1)
 			go func(i int) {
 				defer wg.Done()
-				if i == 0 {
+				switch (i + writerKind) % 4 {
+				case 0:
 					_ = b.RegisterNode("queued", simul.New("queued", eventlogger.NodeTypeFilter))
-				} else {
+				case 1:
 					_ = b.SetSuccessThreshold("T", 0)
+				case 2: // a further pipeline for the type whose Send is in flight
+					_ = b.RegisterPipeline(eventlogger.Pipeline{PipelineID: "extra", EventType: "T", NodeIDs: []eventlogger.NodeID{"m2", "s2"}})
+				case 3:
+					_ = b.RemovePipeline("T", "extra")
+					_ = b.RemovePipeline("U", "q-none")
 				}
 			}(i)
 		}
